@@ -46,8 +46,11 @@ impl Filter for DateInTzFilter {
             .and_then(|s| s.to_date_time())
             .ok_or_else(|| invalid_input("Invalid date format"))?;
 
-        let offset = time::UtcOffset::from_whole_seconds(args.timezone as i32 * 3600)
-            .map_err(|_err| invalid_input("Timezone was too large"))?;
+        let offset = i32::try_from(args.timezone)
+            .ok()
+            .and_then(|hours| hours.checked_mul(3600))
+            .and_then(|seconds| time::UtcOffset::from_whole_seconds(seconds).ok())
+            .ok_or_else(|| invalid_input("Timezone was too large"))?;
 
         let date_str = date
             .with_offset(offset)
